@@ -24,7 +24,8 @@ RULE = ("strategy runs: 4 window strategies x series 2..40 points (real-valued f
         "(>=70% non-uniform) x n x alpha / explicit a x beta x exponent in (0,4], adaptive_smooth = 1; shape "
         "evaluations: 5 functions x random x0<x<x1 (incl. end points), y0, y1, exponent in (0,5]. non-trivial strategy "
         "run: not knife-edge and at least one transition sample differs from its plateau; distinct by case index."
-        " Also: averages handed over as float32 / float16, a second object of the same class in between, explicit a together with alpha.")
+        " Also: averages handed over as float32 / float16, a second object of the same class in between, explicit a together with alpha."
+        " Round-4 classes: constructor call forms (documented positional order / by name), series of 1001..1800 averages.")
 REQUIRED_MONITORS = ["c06:model", "c06:adaptive_windows", "c06:funfit"]
 ASSUMPTIONS = ["adaptive_smooth fixed at 1 (the property's quantifier)", "knife-edge window sizes skipped (counted)"]
 NSHARDS = 16
